@@ -211,6 +211,7 @@ CHECKS = {
             dict(name="faults", run="^TestFaults$", quick=120, thorough=1200, shards=4, quick_shards=4),
             dict(name="concurrent", run="^TestConcurrent$", quick=150, thorough=600, shards=8, quick_shards=8),
             dict(name="concurrent-race", run="^TestConcurrent$", thorough=150, shards=1, race=True, tiers=("thorough",), env={"VERIF_LEG_SUFFIX": "-race"}),
+            dict(name="twofiles", run="^TestTwoFiles$", quick=300, thorough=3000, shards=2),
         ],
     ),
     "C12": dict(
